@@ -41,7 +41,7 @@ func funcTexts(code string) map[string]string {
 
 func c15(c *Ctx) {
 	c.Rep.TieObs = []string{"O-emit.text", "O-emit.map"}
-	c.Rep.Rule = "generator files compiled (a) three times through different worker processes, (b) by both code paths (Generate for the CLI, Compose for the language server), (c) from 16 goroutines at once in permuted orders, (d) in pairs that differ in one template only; oracle: byte-identical text and identical position tables, unchanged templates keep their code; distinct = distinct input file; non-trivial = file has at least two templates"
+	c.Rep.Rule = "generator files compiled (a) three times through different worker processes, (b) by both entry points and code paths (ParseFile + Generate for the CLI, ParseString + Compose for the language server; also with a byte order mark, CRLF line ends and no final line break), (c) from 16 goroutines at once in permuted orders, (d) in pairs that differ in one template only; oracle: byte-identical text and identical position tables, unchanged templates keep their code; distinct = distinct input file; non-trivial = file has at least two templates"
 	var ins [][]byte
 	var files []*gen.File
 	n := c.N(60, 2500)
@@ -55,6 +55,13 @@ func c15(c *Ctx) {
 	for _, b := range gen.RepoSeeds(c.Repo) {
 		ins = append(ins, b)
 		files = append(files, nil)
+	}
+	// the same bytes through both entry points, also for files as editors on other platforms save them:
+	// with a byte order mark, with CRLF line ends, without a final line break
+	for i := 0; i < len(ins) && i < c.N(12, 200); i++ {
+		base := ins[i]
+		ins = append(ins, append([]byte("\xef\xbb\xbf"), base...), []byte(strings.ReplaceAll(string(base), "\n", "\r\n")), []byte(strings.TrimRight(string(base), "\n")))
+		files = append(files, nil, nil, nil)
 	}
 	// (a) three compilations of every input
 	tripled := append(append(append([][]byte{}, ins...), ins...), ins...)
@@ -75,7 +82,10 @@ func c15(c *Ctx) {
 		if !same(a, b2) || !same(a, b3) {
 			c.fail("C15/repeat-differs", "compiling the same bytes again gives a different result", map[string]string{"input_hex": hx(in)})
 		}
-		// (b) CLI path vs LSP path
+		// (b) CLI path (ParseFile + Generate) vs LSP path (ParseString + Compose)
+		if a.Outcome == "ok" && strings.HasPrefix(a.GenSame, "diff:") && a.Err != "-" {
+			c.fail("C15/generate-vs-compose", "the two entry points disagree on whether the file compiles: "+clip(string(unhx(strings.TrimPrefix(a.GenSame, "diff:"))), 200), map[string]string{"input_hex": hx(in)})
+		}
 		if a.Outcome == "ok" && a.Err == "-" {
 			c.dist("accepted")
 			if strings.HasPrefix(a.GenSame, "diff:") {
